@@ -1,7 +1,8 @@
 /-
   Driver command for the LocalFS / POSIX model (C18): `lfs.untar root=<hex path> nso= nsp= fs=<entries> bytes=<hex>`
   runs `LFS.untarFS` and prints the verdict and the resulting file system.
-  An entry is `<hex of the slash-joined real path>|<d|f|l|v>|<hex data or target>|<mtime or ->`, entries joined by `;`.
+  An entry is `<hex of the slash-joined real path>|<d|f|l|v>|<hex data or target>|<mtime or ->|<uid:gid or ->|<mode or ->|<khex=vhex,…>`,
+  entries joined by `;`.
 -/
 import Driver.ParAccept
 import Desync.Model.LocalFS
@@ -11,17 +12,28 @@ open Desync Desync.LFS
 
 def parseMtime (s : String) : Option Nat := if s == "-" then none else s.toNat?
 
+def parseAttr (owner mode xs : String) : Attr :=
+  let ow := match owner.splitOn ":" with
+    | [u, g] => (match u.toNat?, g.toNat? with | some u, some g => some (u, g) | _, _ => none)
+    | _ => none
+  let xl := if xs.isEmpty then [] else (xs.splitOn ",").filterMap fun kv =>
+    match kv.splitOn "=" with
+    | [k, v] => (match ofHex k, ofHex v with | some k, some v => some (k, v) | _, _ => none)
+    | _ => none
+  { owner := ow, mode := mode.toNat?, xattrs := xl }
+
 def parseEntry (s : String) : Option (RPath × Obj) :=
   match s.splitOn "|" with
-  | [p, k, x, t] =>
+  | [p, k, x, t, ow, md, xs] =>
     match ofHex p, ofHex x with
     | some pb, some xb =>
       let rp := comps pb
+      let a := parseAttr ow md xs
       match k with
-      | "d" => some (rp, .dir none (parseMtime t))
-      | "f" => some (rp, .file xb none (parseMtime t))
-      | "l" => some (rp, .symlink xb none)
-      | "v" => some (rp, .dev 0 0 none (parseMtime t))
+      | "d" => some (rp, .dir a (parseMtime t))
+      | "f" => some (rp, .file xb a (parseMtime t))
+      | "l" => some (rp, .symlink xb a)
+      | "v" => some (rp, .dev 0 0 a (parseMtime t))
       | _ => none
     | _, _ => none
   | _ => none
@@ -32,13 +44,19 @@ def mtStr : Option Nat → String
   | none => "-"
   | some t => toString t
 
+def attrStr (a : Attr) : String :=
+  let ow := match a.owner with | some (u, g) => s!"{u}:{g}" | none => "-"
+  let md := match a.mode with | some m => toString m | none => "-"
+  let xs := String.intercalate "," (a.xattrs.map fun (k, v) => toHex k ++ "=" ++ toHex v)
+  s!"{ow}|{md}|{xs}"
+
 def entryStr (e : RPath × Obj) : String :=
   let p := toHex (pathBytes e.1)
   match e.2 with
-  | .dir _ m => s!"{p}|d||{mtStr m}"
-  | .file d _ m => s!"{p}|f|{toHex d}|{mtStr m}"
-  | .symlink t _ => s!"{p}|l|{toHex t}|-"
-  | .dev _ _ _ m => s!"{p}|v||{mtStr m}"
+  | .dir a m => s!"{p}|d||{mtStr m}|{attrStr a}"
+  | .file d a m => s!"{p}|f|{toHex d}|{mtStr m}|{attrStr a}"
+  | .symlink t a => s!"{p}|l|{toHex t}|-|{attrStr a}"
+  | .dev _ _ a m => s!"{p}|v||{mtStr m}|{attrStr a}"
 
 def cmdLfsUntar (a : Args) : String :=
   match a.bytes "root", a.bytes "bytes" with
